@@ -169,7 +169,7 @@ fn faulted(rng: &mut Rng, sw: &Swarm, op: Op, cb_panic_at: Option<u32>) -> OpSpe
             spec.crash_at = crash_point(rng, is_render);
         } else {
             let sites = match &spec.op {
-                Op::SvgRender { .. } => SVG_SITES,
+                Op::SvgRender { .. } | Op::RenderBurst { .. } => SVG_SITES,
                 Op::ImgRender { .. } => IMG_SITES,
                 Op::Term { .. } => TERM_SITES,
                 _ => BUILD_SITES,
@@ -231,6 +231,10 @@ fn gen_op(
         /* 16 SvgTwin     */ if any_qr && sw.w_svg > 0 { sw.w_twin } else { 0 },
         /* 17 ImgTwin     */ if any_qr && sw.w_img > 0 { sw.w_twin / 3 } else { 0 },
         /* 18 BatchRender */ if sw.w_svg + sw.w_img > 0 { 3 + sw.w_twin / 3 } else { 0 },
+        /* 19 Burst       */ if have_b.is_empty() { 0 } else { 2 },
+        /* 20 RenderBurst */ if have_svg.is_empty() || !any_qr { 0 } else { 1 },
+        /* 21 TweakQr     */ if have_q.is_empty() { 0 } else { 2 },
+        /* 22 SetBurst    */ if have_b.is_empty() && have_svg.is_empty() && have_img.is_empty() { 0 } else { 2 },
     ];
     let pick_qr = |rng: &mut Rng| -> QrRef {
         if n_shared_q > 0 && (have_q.is_empty() || rng.chance(2, 5)) {
@@ -423,7 +427,61 @@ fn gen_op(
             let qr = pick_qr(rng);
             gen_render_twin(rng, sw, tg, true, qr, ops);
         }
-        _ => gen_batch_render(rng, sw, tg, inputs.len(), ops),
+        18 => gen_batch_render(rng, sw, tg, inputs.len(), ops),
+        19 => {
+            // how often the same builder has been used must not matter: counters that wrap,
+            // "every n-th call" paths, pools that run dry
+            let slot = *rng.pick(&have_b);
+            let n = burst_len(rng);
+            ops.push(faulted(rng, sw, Op::Burst { slot, n }, None));
+        }
+        20 => {
+            let slot = *rng.pick(&have_svg);
+            let qr = pick_qr(rng);
+            let n = burst_len(rng).min(6000);
+            if !tg.svg_has_panicky[slot as usize] {
+                ops.push(faulted(rng, sw, Op::RenderBurst { slot, qr, n }, None));
+            }
+        }
+        22 => {
+            // "regardless of how many times the setters were called": counters that wrap
+            let mut cands: Vec<(u8, u8)> = Vec::new();
+            for s in &have_b {
+                cands.push((0, *s));
+            }
+            for s in &have_svg {
+                cands.push((1, *s));
+            }
+            for s in &have_img {
+                cands.push((2, *s));
+            }
+            let (what, slot) = *rng.pick(&cands);
+            let n = match rng.weighted(&[4, 3, 3, 1]) {
+                0 => rng.range(2, 12),
+                1 => rng.range(254, 258),
+                2 => rng.range(65_534, 65_538),
+                _ => rng.range(100_000, 300_000),
+            };
+            ops.push(plain(Op::SetBurst { what, slot, n }));
+        }
+        _ => {
+            let from = *rng.pick(&have_q);
+            let to = rng.usize_below(N_QR_SLOTS) as u8;
+            tg.qrs[to as usize] = true;
+            let pos = if rng.chance(1, 2) { rng.below(64) as u32 } else { rng.below(177 * 177) as u32 };
+            ops.push(plain(Op::TweakQr { from, to, pos, xor: *rng.pick(&[1u8, 1, 2, 4, 8]) }));
+        }
+    }
+}
+
+fn burst_len(rng: &mut Rng) -> u32 {
+    match rng.weighted(&[600, 280, 90, 24, 5, 1]) {
+        0 => rng.range(3, 40) as u32,
+        1 => rng.range(40, 300) as u32,
+        2 => rng.range(257, 1100) as u32,
+        3 => rng.range(1100, 5000) as u32,
+        4 => rng.range(5000, 20_000) as u32,
+        _ => 70_000,
     }
 }
 
@@ -437,8 +495,28 @@ fn gen_batch_render(rng: &mut Rng, sw: &Swarm, tg: &mut TaskGen, n_inputs: usize
     let k = rng.range(2, 4) as usize;
     let base_input = rng.usize_below(n_inputs.max(1)) as u8;
     let base_mask = rng.below(8) as u8;
-    let style = rng.below(3);
+    let style = rng.below(4);
+    if style == 3 {
+        // one code and copies of it that differ in a single module (value or type bit)
+        tg.qrs[0] = true;
+        ops.push(plain(Op::BuildFresh { input: base_input, mode: None, ecl: Some(0), version: Some(version), mask: Some(base_mask), out: 0 }));
+        for i in 1..k {
+            tg.qrs[i] = true;
+            // the first row, the last row, or anywhere
+            let side = 17 + 4 * version as u32;
+            let pos = match rng.below(3) {
+                0 => rng.below(side as u64) as u32,
+                1 => side * (side - 1) + rng.below(side as u64) as u32,
+                _ => rng.below((side * side) as u64) as u32,
+            };
+            let xor = *rng.pick(&[1u8, 1, 2, 4, 8]);
+            ops.push(plain(Op::TweakQr { from: 0, to: i as u8, pos, xor }));
+        }
+    }
     for i in 0..k {
+        if style == 3 {
+            break;
+        }
         let (input, ecl, mask) = match style {
             // other inputs, everything else equal
             0 => (rng.usize_below(n_inputs.max(1)) as u8, Some(0u8), Some(base_mask)),
